@@ -29,6 +29,7 @@ import (
 	"fmt"
 	"io"
 	"log/slog"
+	"math"
 	"math/rand/v2"
 	"strings"
 
@@ -47,6 +48,7 @@ type caseT struct {
 	Limit   int           `json:"batch_limit"`
 	CapKind string        `json:"cap_kind"` // wire | ext | both
 	Pick    string        `json:"cap_pick"`
+	Thr     int64         `json:"externalize_threshold"`
 	Blob    wk.BlobParams `json:"blob,omitempty"`
 	Spec    wk.BigSpec    `json:"spec,omitempty"`
 	Wire    int64         `json:"max_response_bytes"`
@@ -79,6 +81,7 @@ func genCase(r *mon.Run, i int) caseT {
 	if c.CapKind != "wire" || rng.IntN(3) == 0 {
 		c.Ext = "plain"
 	}
+	c.Thr = extThreshold
 	id := fmt.Sprintf("c19-%d", i)
 	switch c.Kind {
 	case "unary", "void":
@@ -115,6 +118,20 @@ func genCase(r *mon.Run, i int) caseT {
 			c.Limit = []int{0, 0, 2, 5}[rng.IntN(4)]
 		}
 	}
+	// Domain-audit probe arms: configuration values the setters accept but
+	// nobody would call "sensible" are inside "all caps / all configurations".
+	switch (i / len(kinds)) % 9 {
+	case 4: // caps and batch limits that must behave like "no cap": negative and astronomically large
+		c.Pick = "extreme"
+		if c.Kind == "producer" {
+			c.Limit = []int{-1, math.MinInt64, 1 << 31, 1 << 62, math.MaxInt64}[rng.IntN(5)]
+		}
+	case 7: // externalisation thresholds 1 (everything with a row is uploaded), 0 / negative (library default), huge
+		if c.Kind != "void" {
+			c.Ext = "plain"
+			c.Thr = []int64{1, 1, 0, -1, 1 << 62}[rng.IntN(5)]
+		}
+	}
 	return c
 }
 
@@ -136,14 +153,14 @@ type checker struct {
 	clusters map[string]*wk.Cluster
 }
 
-func (w *checker) cluster(ext string, limit int) *wk.Cluster {
-	k := fmt.Sprintf("%s/%d", ext, limit)
+func (w *checker) cluster(ext string, limit int, thr int64) *wk.Cluster {
+	k := fmt.Sprintf("%s/%d/%d", ext, limit, thr)
 	if cl, ok := w.clusters[k]; ok {
 		return cl
 	}
 	o := wk.ClusterOpt{Instances: 1, Key: []byte("c19-shared-token-key-0123456789ab"), BatchLimit: limit, CacheEntries: -1}
 	if ext != "none" {
-		o.Storage, o.ExtThreshold, o.ExtZstd = w.store, extThreshold, ext == "zstd"
+		o.Storage, o.ExtThreshold, o.ExtZstd = w.store, thr, ext == "zstd"
 	}
 	cl, err := wk.NewCluster(o)
 	if err != nil {
@@ -157,7 +174,7 @@ var zstdHdr = map[string]string{"Accept-Encoding": "zstd"}
 
 // exec runs the case's call on a cluster with the given caps.
 func (w *checker) exec(c caseT, ext string, wireCap, extCap int64, hdr map[string]string) runT {
-	cl := w.cluster(ext, c.Limit)
+	cl := w.cluster(ext, c.Limit, c.Thr)
 	cl.SetCaps(wireCap, extCap)
 	defer cl.SetCaps(0, 0)
 	var st *wk.MemStorage
@@ -257,7 +274,7 @@ func outcome(rn runT) string {
 }
 
 func pickCap(rng *rand.Rand, pick string, boundaries []int64, total int64) int64 {
-	if total < 1 {
+	if total < 1 && pick != "extreme" {
 		total = 1
 	}
 	b := total
@@ -266,6 +283,8 @@ func pickCap(rng *rand.Rand, pick string, boundaries []int64, total int64) int64
 	}
 	var v int64
 	switch pick {
+	case "extreme":
+		return total // taken as is: negative and huge values are what the setters accept
 	case "tiny":
 		v = 1 + rng.Int64N(8)
 	case "boundary":
@@ -303,7 +322,11 @@ func (w *checker) run(c caseT) {
 	r := w.r
 	rng := r.Rand(uint64(c.Index), 99)
 	w.bad = false
-	ref := w.exec(c, c.Ext, 0, 0, nil)
+	c0 := c
+	if c.Pick == "extreme" {
+		c0.Limit = 0 // the reference for an extreme batch limit is "no limit"
+	}
+	ref := w.exec(c0, c.Ext, 0, 0, nil)
 	wit := map[string]any{"case": &c, "uncapped": ref}
 	sig := func(capk, class string) string { return fmt.Sprintf("%s:%s-cap:%s", c.Kind, capk, class) }
 	for _, rp := range ref.Resps {
@@ -344,6 +367,11 @@ func (w *checker) run(c caseT) {
 	if c.Kind == "producer" && c.Limit == 0 && len(ref.Resps) == 1 {
 		wireTotal = int64(ref.Resps[0].PlainLen)
 	}
+	extremes := []int64{-1, math.MinInt64, 1 << 31, 1 << 62, math.MaxInt64}
+	if c.Pick == "extreme" {
+		wireB, extB = nil, nil
+		wireTotal, extTotal = extremes[rng.IntN(len(extremes))], extremes[rng.IntN(len(extremes))]
+	}
 	if c.CapKind == "wire" || c.CapKind == "both" {
 		c.Wire = pickCap(rng, c.Pick, wireB, wireTotal)
 	}
@@ -372,6 +400,20 @@ func (w *checker) run(c caseT) {
 		return
 	}
 
+	if c.Thr != extThreshold {
+		r.Class(map[bool]string{true: "probe.threshold-1", false: "probe.threshold-default-or-huge"}[c.Thr == 1])
+	}
+	if c.Pick == "extreme" {
+		// a non-positive cap / limit means "off" (the setters' docs: "Set to 0 to disable"; every guard in
+		// the library is "> 0"), a cap / limit beyond any response is never reached: same outcome as without
+		r.Class("probe.extreme-caps")
+		if c.Kind == "producer" {
+			r.Class("probe.extreme-batch-limit")
+		}
+		if outcome(got) != outcome(ref) || strings.Join(got.Joined, "\n") != strings.Join(ref.Joined, "\n") {
+			w.viol(sig(c.CapKind, "extreme-config-changes-outcome"), fmt.Sprintf("caps %d / %d, batch limit %d: %s; without caps and limit: %s", c.Wire, c.ExtCap, c.Limit, outcome(got), outcome(ref)), wit)
+		}
+	}
 	switch c.Kind {
 	case "producer":
 		w.checkProducer(c, ref, got, wit, sig)
@@ -608,7 +650,7 @@ func main() {
 		"lockstep.delivered", "lockstep.refused", "lockstep.refused-by-wire-cap", "lockstep.refused-by-ext-cap", "lockstep.delivered-externalised",
 		"producer.response-over-wire-cap", "producer.turn-uploads", "producer.turn-stopped-by-error", "producer.full-stream-arrived",
 		"consistency.response-zstd", "consistency.upload-zstd",
-		"pick.random", "pick.boundary", "pick.boundary+1", "pick.boundary-1", "pick.tiny", "pick.total", "pick.huge")
+		"probe.extreme-caps", "probe.extreme-batch-limit", "probe.threshold-1", "probe.threshold-default-or-huge", "pick.random", "pick.boundary", "pick.boundary+1", "pick.boundary-1", "pick.tiny", "pick.total", "pick.huge")
 	slog.SetDefault(slog.New(slog.NewTextHandler(io.Discard, nil)))
 	svc.SetSink(nil)
 	w := &checker{r: r, store: wk.NewMemStorage(), clusters: map[string]*wk.Cluster{}}
